@@ -122,22 +122,79 @@ MapPool == { << Ent(0, I(1)), Ent(1, I(2)) >>, << Ent(0, I(-1)), Ent(2, I(1)) >>
 Scalars == { I(-2), I(0), I(1), I(3), FracV(1, 2) }
 Pts == << I(-1), I(0), I(1), I(2), I(-3), FracV(1, 2) >>
 
+(* Mappers (see C19_PolyRing): the constant rule, the selection of the constants it is      *)
+(* applied to, the renaming of the base and the binding of parameter coefficients.          *)
+Mapper(fn, mode, sel, base, bind) == [map |-> fn, mmode |-> mode, msel |-> sel, mbase |-> base, mbind |-> bind]
+NoMapper == Mapper("none", "all", << >>, "x", << >>)
+\* the mappers that rewrite every coefficient
+AllMappers == { Mapper(fn, "all", << >>, "x", << >>) : fn \in Maps }
+\* a set of numbers as a sequence (any order)
+RECURSIVE SetToSeq(_)
+SetToSeq(S) == IF S = {} THEN << >> ELSE LET x == CHOOSE x \in S : TRUE IN << x >> \o SetToSeq(S \ {x})
+CoefSet(data) == { data[i].c : i \in 1..Len(data) }
+\* the mappers that rewrite only the constants of a subset of P's coefficients - hence every
+\* subset of the coefficient positions of a polynomial with distinct coefficients: the lowest
+\* only, a middle one only, the leading one only, none, all - with and without renaming the base
+SelMappers(data, fns, bases) ==
+    { Mapper(fn, "only", SetToSeq(S), bn, << >>) : fn \in fns, S \in SUBSET CoefSet(data), bn \in bases }
+\* operands for them: three terms, coefficients distinct or repeated, monic or not
+SelCoefs == IF Quick THEN { I(1), I(2), I(-3) } ELSE { I(1), I(2), I(-3), I(4) }
+SelShapes == IF Quick THEN { << 0, 1, 2 >> } ELSE { << 0, 1, 2 >>, << 0, 1, 3 >>, << 1, 2, 4 >> }
+SelPool == (UNION { ThreeTerm(es, SelCoefs) : es \in SelShapes })
+           \cup TwoTerm(IF Quick THEN 1 ELSE 2, SelCoefs) \cup OneTerm(1, { I(2) })
+\* a thin pool for the cross product with the operations: all coefficients distinct (monic and
+\* not), and a repeated coefficient
+SelThin == { << Ent(0, I(2)), Ent(1, I(-3)), Ent(2, I(1)) >>, << Ent(0, I(1)), Ent(1, I(4)), Ent(3, I(-2)) >>,
+             << Ent(0, I(2)), Ent(2, I(2)) >> }
+            \cup (IF Quick THEN {} ELSE { << Ent(0, I(4)), Ent(1, I(6)), Ent(2, I(1)) >>, << Ent(1, I(-3)), Ent(2, I(2)) >> })
+SelFns == {"dbl", "neg", "inc", "half"}
+\* parameters among the coefficients, bound to numbers by the mapper (map_variable): every
+\* non-empty subset of the positions of a three-term polynomial is a parameter, the other
+\* coefficients are the number cf
+Sym(i) == [k |-> "sym", n |-> i, d |-> 1]
+ParamPoly(es, ps, cf) ==
+    [j \in 1..3 |-> Ent(es[j], IF j \in ps THEN Sym(Cardinality({ l \in ps : l <= j })) ELSE cf)]
+ParamPool == { ParamPoly(es, ps, cf) : es \in (IF Quick THEN { << 0, 1, 3 >> } ELSE SelShapes),
+                                       ps \in (SUBSET (1..3)) \ { {} }, cf \in { I(1), I(2) } }
+BindVals == << I(5), I(-7), I(3) >>
+BindMappers == { Mapper(fn, "all", << >>, bn, BindVals) : fn \in {"keep", "dbl"}, bn \in {"x", "y"} }
+MapOps == {"add", "mul", "sub", "divmod", "muls", "pow", "rsubs"}
+
+PolySeed(op, pp, m) == [part |-> "poly", ph |-> "seed", op |-> op, P |-> pp, map |-> m.map, mmode |-> m.mmode,
+                        msel |-> m.msel, mbase |-> m.mbase, mbind |-> m.mbind, fam |-> "all"]
 PolySeeds ==
-    UNION { { [part |-> "poly", ph |-> "seed", op |-> op, P |-> pp, map |-> "none"] : pp \in PoolP(op) } :
-              op \in PolyOps }
-    \cup { [part |-> "poly", ph |-> "seed", op |-> op, P |-> pp, map |-> mp] :
-             op \in {"add", "mul", "sub", "divmod", "muls", "pow", "rsubs"}, pp \in MapPool, mp \in Maps }
+    UNION { { PolySeed(op, pp, NoMapper) : pp \in PoolP(op) } : op \in PolyOps }
+    \cup { PolySeed(op, pp, m) : op \in MapOps, pp \in MapPool, m \in AllMappers }
+    \* the mapper alone (followed by a negation), widely ...
+    \cup UNION { { [PolySeed("neg", pp, m) EXCEPT !.fam = "sel"] : m \in SelMappers(pp, SelFns, {"x", "y"}) } : pp \in SelPool }
+    \cup { [PolySeed("neg", pp, m) EXCEPT !.fam = "bind"] : pp \in ParamPool, m \in BindMappers }
+    \cup { [PolySeed("neg", pp, Mapper("keep", "all", << >>, "y", << >>)) EXCEPT !.fam = "sel"] : pp \in MapPool }
+    \* ... and before every operation, thinly
+    \cup UNION { { [PolySeed(op, pp, m) EXCEPT !.fam = "sel"] :
+                      op \in MapOps, m \in SelMappers(pp, IF Quick THEN {"dbl", "half"} ELSE SelFns, {"x", "y"}) } :
+                    pp \in SelThin }
+    \cup { [PolySeed(op, pp, m) EXCEPT !.fam = "bind"] :
+              op \in {"add", "mul", "divmod", "pow"}, m \in BindMappers,
+              pp \in { q \in ParamPool : Quick => q[1].c = I(2) \/ q[3].c = I(1) } }
 PolyCase(s, qq, sc, k) ==
     [part |-> "poly", ph |-> "case", op |-> s.op, P |-> s.P, Q |-> qq, s |-> sc, k |-> k,
-     map |-> s.map, pts |-> Pts,
+     map |-> s.map, mmode |-> s.mmode, msel |-> s.msel, mbase |-> s.mbase, mbind |-> s.mbind, pts |-> Pts,
      \* dv = 1: the result is also evaluated through pymbolic.evaluate() (the memoising default)
      dv |-> (IF Len(s.P) <= 1 /\ Len(qq) <= 1 THEN 1 ELSE 0)]
+\* second operands when a mapper is applied to both
+QForMapper(s) ==
+    IF s.fam = "sel" THEN (IF Quick THEN { q \in SelThin : Len(q) = 3 } ELSE SelThin \cup MapPool)
+    ELSE IF s.fam = "bind"
+    THEN { ParamPoly(<< 0, 1, 2 >>, {2}, I(1)), ParamPoly(<< 0, 1, 2 >>, {1, 3}, I(-2)), << Ent(0, I(-1)), Ent(1, I(1)) >> }
+    ELSE MapPool
 PolyNext(s) ==
     \E cc \in
         (IF s.op \in BinOps2
-         THEN { PolyCase(s, qq, I(0), 0) : qq \in (IF s.map = "none" THEN PoolQ(s.op) ELSE MapPool) }
+         THEN { PolyCase(s, qq, I(0), 0) : qq \in (IF s.map = "none" THEN PoolQ(s.op) ELSE QForMapper(s)) }
          ELSE IF s.op \in ScalOps THEN { PolyCase(s, << >>, sc, 0) : sc \in Scalars }
-         ELSE IF s.op = "pow" THEN { PolyCase(s, << >>, I(0), k) : k \in -1..(IF Len(s.P) <= 2 THEN 5 ELSE 4) }
+         ELSE IF s.op = "pow" THEN { PolyCase(s, << >>, I(0), k) :
+                                       k \in (IF s.fam = "all" THEN -1..(IF Len(s.P) <= 2 THEN 5 ELSE 4)
+                                              ELSE IF Quick THEN {2, 3} ELSE 0..3) }
          ELSE { PolyCase(s, << >>, I(0), 0) }) :
       st' = cc @@ [ac |-> ""]
 
@@ -175,7 +232,12 @@ RandData(dmax) ==
         G(e) == IF e > dmax THEN << >>
                 ELSE (IF R(0, 1) = 1 THEN << Ent(e, RandCoef) >> ELSE << >>) \o G(e + 1)
     IN G(0)
-RandSeeds == { [part |-> pt, ph |-> "seed"] : pt \in {"pow", "euclid", "fft", "poly", "quot", "gcdmany"} }
+RandIntData(dmax) ==
+    LET RECURSIVE G(_)
+        G(e) == IF e > dmax THEN << >>
+                ELSE (IF R(0, 1) = 1 THEN << Ent(e, I(RandomElement({-3, -2, -1, 1, 2, 3}))) >> ELSE << >>) \o G(e + 1)
+    IN G(0)
+RandSeeds == { [part |-> pt, ph |-> "seed"] : pt \in {"pow", "euclid", "fft", "poly", "polymap", "quot", "gcdmany"} }
 \* every random draw is bound by a quantifier over a singleton, so it is drawn exactly once
 RandNext(s) ==
     CASE s.part = "pow" ->
@@ -206,7 +268,20 @@ RandNext(s) ==
                    Q |-> (IF op \in BinOps2 THEN RandData(5) ELSE << >>),
                    s |-> (IF op \in ScalOps THEN RandCoef ELSE I(0)),
                    k |-> (IF op = "pow" THEN R(-1, 4) ELSE 0),
-                   map |-> RandomElement({"none", "dbl", "neg", "inc"}), pts |-> Pts, dv |-> R(0, 1), ac |-> ""]
+                   map |-> "none", mmode |-> "all", msel |-> << >>, mbase |-> "x", mbind |-> << >>,
+                   pts |-> Pts, dv |-> R(0, 1), ac |-> ""]
+      [] s.part = "polymap" ->
+            \* a random integer polynomial under a random mapper: random rule, random selection of
+            \* constants, random base name
+            \E op \in { RandomElement(MapOps \cup {"neg"}) } :
+            \E sel \in { RandomElement(SUBSET (-3..3)) } :
+            st' = [part |-> "poly", ph |-> "case", op |-> op, P |-> RandIntData(6),
+                   Q |-> (IF op \in BinOps2 THEN RandIntData(5) ELSE << >>),
+                   s |-> (IF op \in ScalOps THEN RandCoef ELSE I(0)),
+                   k |-> (IF op = "pow" THEN R(-1, 4) ELSE 0),
+                   map |-> RandomElement(MapFns), mmode |-> RandomElement({"all", "only", "only"}),
+                   msel |-> SetToSeq({ I(v) : v \in sel }), mbase |-> RandomElement({"x", "y"}), mbind |-> << >>,
+                   pts |-> Pts, dv |-> 0, ac |-> ""]
       [] s.part = "quot" ->
             st' = [part |-> "quot", ph |-> "case", n |-> R(-20000, 20000), d |-> R(-3000, 3000), ac |-> ""]
 
@@ -264,15 +339,15 @@ FFTInverse ==
         IDFT(DFT(st.x, st.w, st.p), st.w, st.p) = st.x
 
 \* polynomials: the A-layer either agrees with the meaning or the case lies in a named deviation
-MapDiffers(map, data) == ~PEq(FromData(ImplMap(map, data)), MapSpec(map, FromData(data)))
+\* (the operands of the operation are the mapped operands)
+Mapped(c, data) == IF c.map = "none" THEN data ELSE MapData(c, data)
 PolyDev(c) ==
-    LET a == FromData(c.P) b == FromData(c.Q) IN
-    IF c.map # "none" /\ (MapDiffers(c.map, c.P) \/ (c.op \in BinOps2 /\ MapDiffers(c.map, c.Q)))
-    THEN "Dev_GeneratorConsumed"
+    LET a == FromData(Mapped(c, c.P)) b == FromData(Mapped(c, c.Q)) IN
+    IF HasSym(Mapped(c, c.P)) \/ HasSym(Mapped(c, c.Q)) THEN "UNNAMED"      \* never generated: every parameter is bound
     ELSE IF c.op \in {"divmod", "divmods"} \/ (c.op = "pow" /\ c.k < 0) THEN ""
-    ELSE IF PEq(FromData(OpImpl(c.op, c.P, c.Q, c.s, c.k)), OpSpec(c.op, a, b, c.s, c.k)) THEN ""
+    ELSE IF PEq(FromData(OpImpl(c.op, Mapped(c, c.P), Mapped(c, c.Q), c.s, c.k)), OpSpec(c.op, a, b, c.s, c.k)) THEN ""
     ELSE IF c.op = "rsubs" THEN "Dev_RsubSign"
-    ELSE IF c.op = "mul" /\ MulHits(c.P, c.Q) THEN "Dev_PopKeepsLastExp"
+    ELSE IF c.op = "mul" /\ MulHits(Mapped(c, c.P), Mapped(c, c.Q)) THEN "Dev_PopKeepsLastExp"
     ELSE IF c.op = "pow" /\ PowHits(a, c.k) THEN "Dev_PopKeepsLastExp"
     ELSE "UNNAMED"
 PolyRefinesOrNamed == (Complete /\ st.part = "poly") => PolyDev(st) # "UNNAMED"
